@@ -43,23 +43,19 @@ type spec struct {
 	conn     []expEntry
 	perID    map[int][]expEntry
 	execs    []expExec
-	stopped  map[int]bool
+	stopped  map[int]bool // sources whose Stop() is due by now: a stop frame named their running subscription
+	released map[int]bool // sources that ended by themselves: when they are stopped is the implementation's choice
 	lastSync int
 	idSync   map[int]int
+	created  []int // operations for which a source is expected, in order
 }
 
 func newSpec(proto string) *spec {
-	return &spec{proto: proto, trigger: -1, active: map[int]int{}, gens: map[int]*genInfo{}, perID: map[int][]expEntry{}, stopped: map[int]bool{}, idSync: map[int]int{}}
+	return &spec{proto: proto, trigger: -1, active: map[int]int{}, gens: map[int]*genInfo{}, perID: map[int][]expEntry{}, stopped: map[int]bool{}, released: map[int]bool{}, idSync: map[int]int{}}
 }
 
 func (sp *spec) connCount() int {
-	n := 0
-	for _, e := range sp.conn {
-		if e.typ != "ka" {
-			n++
-		}
-	}
-	return n
+	return len(sp.conn)
 }
 
 func (sp *spec) mark(n int)          { sp.lastSync = n }
@@ -98,7 +94,11 @@ func (sp *spec) frame(st Step, idx int) {
 		}
 		switch st.Kind {
 		case "query", "mutation":
-			sp.execs = append(sp.execs, expExec{g, st.Kind, idx})
+			if !sp.closing {
+				// once the server was told to close, its context is cancelled and operations are
+				// answered (with that error) without their resolvers being called
+				sp.execs = append(sp.execs, expExec{g, st.Kind, idx})
+			}
 			sp.answer(st.ID, g, idx)
 		case "invalid":
 			sp.answer(st.ID, g, idx)
@@ -107,8 +107,7 @@ func (sp *spec) frame(st Step, idx int) {
 				if !sp.gens[old].ended {
 					return // a subscription with this id is running: the start is ignored
 				}
-				// the previous subscription ran to completion: it is released and the id re-used
-				sp.stopped[old] = true
+				// the previous subscription ran to completion: the id is free again
 				sp.gens[old].stopped = true
 				delete(sp.active, st.ID)
 			}
@@ -119,6 +118,7 @@ func (sp *spec) frame(st Step, idx int) {
 			}
 			sp.active[st.ID] = g
 			sp.gens[g] = &genInfo{id: st.ID, kind: "subscription", created: true}
+			sp.created = append(sp.created, g)
 		}
 	case "startbad":
 		if !ws && sp.inited {
@@ -161,6 +161,7 @@ func (sp *spec) event(gen, n, idx int) {
 func (sp *spec) end(gen, idx int) {
 	gi := sp.gens[gen]
 	gi.ended = true
+	sp.released[gen] = true
 	if !gi.completed {
 		gi.completed = true
 		sp.perID[gi.id] = append(sp.perID[gi.id], expEntry{typ: "comp", gen: gen, idx: idx})
@@ -196,7 +197,8 @@ func matchW(f WFrame, e expEntry) bool {
 		return false
 	}
 	if f.Type == "res" {
-		return f.Gen == e.gen && f.Ev == e.ev
+		// Gen -1: an error result that does not name its operation (syntax error, cancelled context)
+		return f.Gen == -1 || (f.Gen == e.gen && f.Ev == e.ev)
 	}
 	return true
 }
@@ -237,7 +239,7 @@ func (sp *spec) oracle(o *Observed) string {
 		if f.Type == "ack" {
 			seenAck = true
 		}
-		if !seenAck && f.Type != "connerr" {
+		if !seenAck && f.Type != "connerr" && !(o.slow() && (f.Type == "ka" || f.Type == "pong")) {
 			return fmt.Sprintf("message %d, %s, precedes the acknowledgement of a successful init", i, showW(f))
 		}
 		if f.Type == "other" || ((f.Type == "res" || f.Type == "comp") && f.ID < 0) {
@@ -245,13 +247,23 @@ func (sp *spec) oracle(o *Observed) string {
 		}
 	}
 	for _, a := range o.Anomalies {
-		if strings.Contains(a, "did not take an event") || strings.Contains(a, "although nothing asked") {
+		if strings.Contains(a, "did not take an event") || strings.Contains(a, "although nothing asked") || strings.Contains(a, "did not return") {
 			return a
 		}
 	}
 	for i, in := range o.Inputs {
-		if in.Kind == "sync" && fmt.Sprint(in.Stopped) != fmt.Sprint(in.Want) {
-			return fmt.Sprintf("at the quiescence point after input %d the sources %v have been stopped; the stops asked for so far are %v", i, in.Stopped, in.Want)
+		if in.Kind != "sync" {
+			continue
+		}
+		for _, g := range in.Want {
+			if !containsInt(in.Stopped, g) {
+				return fmt.Sprintf("at the quiescence point after input %d the source of subscription %d has not been stopped although a stop for it was sent (stopped: %v)", i, g, in.Stopped)
+			}
+		}
+		for _, g := range in.Stopped {
+			if !containsInt(in.Want, g) && !containsInt(in.May, g) {
+				return fmt.Sprintf("at the quiescence point after input %d the source of subscription %d has been stopped although it is running and nothing asked for that (stops asked for: %v)", i, g, in.Want)
+			}
 		}
 	}
 	// connection-level: acks and pongs (the keep-alive and the connection error are not regulated)
@@ -272,7 +284,21 @@ func (sp *spec) oracle(o *Observed) string {
 		}
 	}
 	if o.slow() {
-		// a session that took longer than the keep-alive period may carry ticker pongs
+		// a connection older than the keep-alive period may carry ticker pongs: only count
+		np, dueP := 0, 0
+		for _, f := range connObs {
+			if f.Type == "pong" {
+				np++
+			}
+		}
+		for i, e := range connExp {
+			if e.typ == "pong" && i < must {
+				dueP++
+			}
+		}
+		if np < dueP {
+			return fmt.Sprintf("only %d of the %d pongs that were due at a quiescence point arrived", np, dueP)
+		}
 		connObs, connExp, must = nil, nil, 0
 	}
 	if msg := checkPrefix("acks and pongs", connObs, connExp, must); msg != "" {
@@ -313,13 +339,24 @@ func (sp *spec) oracle(o *Observed) string {
 			mustE = i + 1
 		}
 	}
+	// the due ones first and in order; then a sub-sequence of the rest (in flight when the connection
+	// ended: a query that arrives after the context was cancelled is answered without its resolver)
+	j := 0
 	for i, e := range o.Execs {
-		if i >= len(sp.execs) {
-			return fmt.Sprintf("operation %d (%s) was executed although no started operation accounts for it (resolver run %d)", e.Gen, e.Kind, i)
+		if i < mustE {
+			if sp.execs[i].gen != e.Gen || sp.execs[i].kind != e.Kind {
+				return fmt.Sprintf("resolver run %d executed operation %d (%s) where operation %d (%s) is due", i, e.Gen, e.Kind, sp.execs[i].gen, sp.execs[i].kind)
+			}
+			j = i + 1
+			continue
 		}
-		if sp.execs[i].gen != e.Gen || sp.execs[i].kind != e.Kind {
-			return fmt.Sprintf("resolver run %d executed operation %d (%s) where operation %d (%s) is due", i, e.Gen, e.Kind, sp.execs[i].gen, sp.execs[i].kind)
+		for j < len(sp.execs) && (sp.execs[j].gen != e.Gen || sp.execs[j].kind != e.Kind) {
+			j++
 		}
+		if j >= len(sp.execs) {
+			return fmt.Sprintf("operation %d (%s) was executed (resolver run %d) although no started operation accounts for it", e.Gen, e.Kind, i)
+		}
+		j++
 	}
 	if len(o.Execs) < mustE {
 		return fmt.Sprintf("only %d of the %d operations that were due at a quiescence point were executed", len(o.Execs), mustE)
@@ -336,7 +373,9 @@ func (sp *spec) oracle(o *Observed) string {
 	return ""
 }
 
-func (o *Observed) slow() bool { return o.Elapsed.Seconds() > 12 }
+// slow: the connection lived long enough for the 15 s keep-alive ticker to have fired (it starts
+// after the dial, so a connection younger than that carries no ticker message).
+func (o *Observed) slow() bool { return o.WireTime.Seconds() > 14.5 }
 
 func sortedKeys(m map[int]bool) []int {
 	var out []int
